@@ -948,8 +948,8 @@ impl<'a> Parser<'a> {
             self.begin_scope();
             self.block();
             self.end_scope();
-            self.emit_byte(OpCode::EndFinally as u8);
         }
+        self.emit_byte(OpCode::EndFinally as u8);
 
         if !have_catch && !have_finally {
             self.error("Expected 'catch' or 'finally' after 'try' block.");
